@@ -462,3 +462,17 @@ Definition check_case (c : case) : Z :=
     let clean := match cut with None => true | Some _ => false end
                  && (len (expand extra) =? 0) && no_io_error sobs in
     if clean && negb (monitor_into rops' robs_ (sent_msgs sc sops' sobs)) then 3 else 0.
+
+(* what the model expects for a case, for `./check C13 --replay`: sender
+   observations, (length, sums) and first bytes of the wire, write trace, receiver
+   observations (code, length and first bytes of the data, returned size, first
+   bytes of the buffer, flags), unread bytes, read trace *)
+Definition model_view (c : case) :=
+  let 'Case sr sw wo sops extra cut rr rw ro rops _ _ _ _ _ _ := c in
+  let '(wire, wtrace, sobs) := run_sender (mkc false sr sw) wo (map sop_of sops) in
+  let full := wire ++ expand extra in
+  let stream := match cut with Some k => take k full | None => full end in
+  let '(unread, rtrace, robs_) := run_receiver (mkc false rr rw) ro stream (map rop_of rops) in
+  (sobs, (digest wire, take 24 wire), wtrace,
+   map (fun r => (r_code r, len (r_data r), take 24 (r_data r), r_ret r, take 24 (r_buf r), r_flags r)) robs_,
+   len unread, rtrace).
